@@ -613,8 +613,12 @@ def outer_dense(ctx, da, scheds, extra_progs):
     return n
 
 
-def outer_libs(ctx, da, scheds):
-    """dense schedules over library code: harness/c02_libs.scm (compiled libraries: srfi 69/95/151/39/98, chibi io /
+def outer_libs(ctx, da, scheds, srcname="c02_libs.scm", tag="libs", more_env=None):
+    """(with srcname=c02_threads.scm, tag=threads: the same over GREEN-THREAD programs -- thread creation, join results,
+    mutex / condition-variable queues with values in flight, thread-specific slots, per-thread parameterize, exceptions
+    through join, anonymous / blocked / terminated threads -- run on the virtual clock with injected time slices;
+    scheds entries are then (gc schedule, audit, thread schedule))
+    dense schedules over library code: harness/c02_libs.scm (compiled libraries: srfi 69/95/151/39/98, chibi io /
     string / ast, scheme time).  The schedule starts after the imports (CHIBI_VERIF_GC_START, hook patch
     fixes/hook-C02-gc-start.patch); the start index is measured: allocations of an imports-only run minus
     allocations of an empty run, both counted in the allocation trace."""
@@ -628,13 +632,14 @@ def outer_libs(ctx, da, scheds):
     emb = B.cc_embed(da, HARNESS, os.path.join(da, "embed_c02"))
     work = os.path.join(B.SCRATCH, "tmp_c02_work")
     os.makedirs(work, exist_ok=True)
-    src = os.path.join(HERE, "..", "harness", "c02_libs.scm")
+    src = os.path.abspath(os.path.join(HERE, "..", "harness", srcname))
     text = open(src).read()
     imp = text[text.index("(import"):text.index("(define (show")]
-    fe, fi, tr = os.path.join(work, "libs-empty.scm"), os.path.join(work, "libs-imports.scm"), os.path.join(work, "libs.trace")
+    fe, fi, tr = os.path.join(work, tag + "-empty.scm"), os.path.join(work, tag + "-imports.scm"), os.path.join(work, tag + ".trace")
     open(fe, "w").write("\n")
     open(fi, "w").write(imp + "\n")
     base_env = {"C02_NO_BOOT_GC": "1", "ASAN_OPTIONS": "detect_leaks=0:detect_odr_violation=0:exitcode=97"}
+    base_env.update(more_env or {})
 
     def go(path, extra, timeout=1500):
         env = B.chibi_env(da, dict(base_env, **extra))
@@ -652,35 +657,52 @@ def outer_libs(ctx, da, scheds):
     start = count(fi) - count(fe)
     rc0, out0, err0 = go(src, {})
     if rc0 != 0 or start <= 0:
-        ctx.broken("outer:baseline", "harness/c02_libs.scm fails without forced collections (rc=%s, start=%s): %s" % (rc0, start, err0[-300:]))
+        top0 = asan_top(err0)
+        if top0:      # natural collections are schedules too: a trap without any forced collection is a failing input
+            ctx.violation("schedule:%s:unforced:asan:%s:%s" % (tag, top0[0], "/".join(top0[1][:2])), input="harness/%s without forced collections" % srcname,
+                          expected="runs to the end", observed="AddressSanitizer %s in %s" % (top0[0], " <- ".join(top0[1])),
+                          replay="%sC02_NO_BOOT_GC=1 LD_LIBRARY_PATH=%s CHIBI_MODULE_PATH=%s/lib CHIBI_IGNORE_SYSTEM_PATH=1 ASAN_OPTIONS=detect_leaks=0:detect_odr_violation=0 %s %s /dev/null" % (
+                              "".join("%s=%s " % kv for kv in sorted((more_env or {}).items())), da, da, emb, src))
+        else:
+            ctx.broken("outer:baseline", "harness/%s fails without forced collections (rc=%s, start=%s): %s" % (srcname, rc0, start, err0[-300:]))
         return 0
     n = 0
-    for s, audit in scheds:
+    envtxt = "".join("%s=%s " % kv for kv in sorted((more_env or {}).items()))
+    for sc in scheds:
+        s, audit = sc[0], sc[1]
+        tsched = sc[2] if len(sc) > 2 else None
         extra = {"CHIBI_VERIF_GC": s, "CHIBI_VERIF_GC_START": str(start)}
         if audit:
             extra["CHIBI_VERIF_AUDIT"] = "1"
+        if tsched:
+            extra["CHIBI_VERIF_SCHED"] = tsched
+            rcb, outb, errb = go(src, {"CHIBI_VERIF_SCHED": tsched})
+            if rcb != rc0 or outb != out0:
+                ctx.note("harness/%s: output depends on the thread schedule %s (compared with the unforced run under the same schedule)" % (srcname, tsched))
+        else:
+            rcb, outb = rc0, out0
         rc, out, err = go(src, extra)
         if rc == "TIMEOUT":
-            ctx.note("library run under %s timed out (inconclusive)" % s)
+            ctx.note("%s run under %s timed out (inconclusive)" % (tag, s))
             continue
         n += 1
-        ctx.count(1, key=("libs", s), nontrivial=True)
-        replay = "%sCHIBI_VERIF_GC=%s CHIBI_VERIF_GC_START=%d C02_NO_BOOT_GC=1 LD_LIBRARY_PATH=%s CHIBI_MODULE_PATH=%s/lib CHIBI_IGNORE_SYSTEM_PATH=1 ASAN_OPTIONS=detect_leaks=0:detect_odr_violation=0 %s %s /dev/null" % (
-            "CHIBI_VERIF_AUDIT=1 " if audit else "", s, start, da, da, emb, src)
+        ctx.count(1, key=(tag, s, tsched), nontrivial=True)
+        replay = "%s%s%sCHIBI_VERIF_GC=%s CHIBI_VERIF_GC_START=%d C02_NO_BOOT_GC=1 LD_LIBRARY_PATH=%s CHIBI_MODULE_PATH=%s/lib CHIBI_IGNORE_SYSTEM_PATH=1 ASAN_OPTIONS=detect_leaks=0:detect_odr_violation=0 %s %s /dev/null" % (
+            "CHIBI_VERIF_AUDIT=1 " if audit else "", envtxt, ("CHIBI_VERIF_SCHED=%s " % tsched) if tsched else "", s, start, da, da, emb, src)
+        what = "harness/%s under CHIBI_VERIF_GC=%s from allocation %d%s" % (srcname, s, start, (", time slices " + tsched) if tsched else "")
         ma = re.search(r"VERIF-AUDIT FAIL gc=\d+: ([^\n]*)", err)
         if ma:
-            ctx.violation("audit:" + ma.group(1).replace(" ", "-")[:60], input="harness/c02_libs.scm under %s from allocation %d" % (s, start),
+            ctx.violation("audit:" + ma.group(1).replace(" ", "-")[:60], input=what,
                           expected="closed, tiled heap with clear marks after every sweep", observed=ma.group(0), replay=replay)
-        if rc != rc0 or out != out0:
+        if rc != rcb or out != outb:
             top = asan_top(err)
-            l0, l1 = out0.split("\n"), out.split("\n")
+            l0, l1 = outb.split("\n"), out.split("\n")
             i = next((i for i, (x, y) in enumerate(zip(l0, l1)) if x != y), min(len(l0), len(l1)))
-            ctx.violation("schedule:libs:%s" % ("asan:" + top[0] + ":" + "/".join(top[1][:2]) if top else ("exit-status" if rc != rc0 else "output-differs")),
-                          input="harness/c02_libs.scm under CHIBI_VERIF_GC=%s from allocation %d" % (s, start),
-                          expected="same output and exit status as the unforced run",
+            ctx.violation("schedule:%s:%s" % (tag, "asan:" + top[0] + ":" + "/".join(top[1][:2]) if top else ("exit-status" if rc != rcb else "output-differs")),
+                          input=what, expected="same output and exit status as the unforced run",
                           observed=("AddressSanitizer %s in %s" % (top[0], " <- ".join(top[1])) if top else "rc=%s; first differing line %d: %r vs %r" % (rc, i, l1[i:i + 1], l0[i:i + 1])),
                           replay=replay)
-    ctx.sample(dict(kind="outer-libs", start_allocation=start, schedules=[s for s, a in scheds]))
+    ctx.sample(dict(kind="outer-" + tag, start_allocation=start, schedules=[sc[0] for sc in scheds], thread_schedules=[sc[2] for sc in scheds if len(sc) > 2]))
     return n
 
 
@@ -708,6 +730,23 @@ def run(ctx):
         facts = c02_layout.regen(ctx, d)
     except Exception as e:
         ctx.broken("gen:C02_Layout", "layout translator failed closed: %s" % e)
+        return
+    from gen import c02_vmtop
+    try:
+        vt = c02_vmtop.regen(ctx, d)
+        badsegs = [sg for sg in vt["segments"] if sg["bad"]]
+        ctx.cov["vm_segments"] = len(vt["segments"])
+        ctx.cov["vm_segments_with_allocating_calls"] = sum(1 for sg in vt["segments"] if sg["calls"])
+        ctx.cov["may_allocate_functions"] = vt["may_allocate"]
+        for a in vt["assumptions"]:
+            ctx.assume("vm.c translator: " + a)
+        ctx.trust("gen/c02_vmtop.py: functions outside the core library called from the opcode switch are taken as non-allocating: " + ", ".join(vt["external"]))
+        for sg in badsegs:
+            ctx.broken("vmtop:allocating-call-with-unpublished-stack-top:" + "/".join(sg["names"]),
+                       "opcode %s of vm.c reaches %s with the local stack top not known to be <= sexp_context_top(ctx) (state %s): a collection there does not scan the newest stack slots" % (
+                           "/".join(sg["names"]), ", ".join(sorted(set(b[0] for b in sg["bad"]))), sg["bad"][0][1]))
+    except Exception as e:
+        ctx.broken("gen:C02_VmTop", "vm.c opcode-switch translator failed closed: %s" % e)
         return
     okc = ctx.coq_obligations("Properties_C02")     # a failing layout obligation also shows up as a mark/oracle disagreement in inner()
     if okc and ctx.thorough:
@@ -751,6 +790,14 @@ def run(ctx):
         lscheds = [("every:%d" % ctx.rng.choice([53, 61, 67]), False)]
     nl = outer_libs(ctx, da, lscheds)
     t5 = time.time()
+    rs = lambda: ctx.rng.randrange(1, 100000)
+    if ctx.thorough:
+        tscheds = [("every:1", True, "seed:%d:25" % rs()), ("every:2", False, "seed:%d:9" % rs()), ("every:3", True, None), ("seed:%d:3" % rs(), False, "seed:%d:60" % rs())]
+    else:
+        tscheds = [("every:%d" % ctx.rng.choice([17, 19, 23]), False, "seed:%d:%d" % (rs(), ctx.rng.choice([7, 30, 120]))), ("seed:%d:29" % rs(), True, None)]
+    nt = outer_libs(ctx, da, tscheds, srcname="c02_threads.scm", tag="threads", more_env={"CHIBI_VERIF_SCHED_CLOCK": "1000"})
+    t6 = time.time()
+    ctx.note("green-thread programs under dense forced collections: %d runs %.0fs" % (nt, t6 - t5))
     ctx.note("timing: inner %d collections %.0fs; asan build %.0fs; outer %d runs %.0fs; dense %d runs %.0fs; library dense %d runs %.0fs" % (
         nc, t1 - t0, t2 - t1, nr, t3 - t2, nd, t4 - t3, nl, t5 - t4))
     _tiny_heap_probe(ctx, da)
